@@ -430,6 +430,20 @@ JudgeNew(e) ==
          ELSE IF ~VN!MayFail(cfg, fin.s) THEN {D(props, "new_failed_without_entropy_failure", o.stderr_head)}
          ELSE {}))]
 
+\* tx.encode : in = [doc, sigtext]   out.ok = [signed, sig]      Transaction::encode with ANY parsed signature
+JudgeTxEncode(e) ==
+  LET o  == e.out
+      p  == Parse(e.in.doc)
+      sg == ParseSig(StrToUtf8(e.in.sigtext))
+      exact == p.c = "accept" /\ sg.c = "accept" /\ ~(p.tx.kind = "legacy" /\ ~VFits256(p.tx.chainId))
+  IN  [cls |-> IF exact THEN "accept" ELSE "open",
+       devs |-> CrashDevs(o) \cup
+         (IF ~exact THEN {}
+          ELSE IF IsOk(o) THEN
+            (IF Hx(o.ok.signed) # SignedPayload(p.tx, sg.sig) THEN {D({"C06", "C07"}, "signed_bytes", o.ok.signed)} ELSE {})
+            \cup (IF ~DecodesTo(Hx(o.ok.signed), p.tx, sg.sig) THEN {D({"C06", "C07"}, "decode", "")} ELSE {})
+          ELSE {D({"C06"}, "encode_failed", "")})]
+
 -----------------------------------------------------------------------------
 \* hook sweeps of the private RLP primitives: out.ok.hex must be the spec encoding
 Exact(e, expected, props, reason) ==
@@ -512,6 +526,7 @@ JudgeMnRandom(e) ==
 JudgeEvent(e) ==
   IF IsSkip(e.out) THEN [cls |-> "skip", devs |-> {}]
   ELSE CASE e.op = "tx.sign"   -> JudgeTxSign(e)
+         [] e.op = "tx.encode" -> JudgeTxEncode(e)
          [] e.op = "mnemonic.parse"  -> JudgeMnParse(e)
          [] e.op = "mnemonic.seed"   -> JudgeMnSeed(e)
          [] e.op = "mnemonic.random" -> JudgeMnRandom(e)
